@@ -32,6 +32,9 @@ type Entry struct {
 	Role string `json:",omitempty"` // role of the sender (overwritten by the harness with what the state says)
 	Gen  string `json:",omitempty"` // what the generator believed the sender to be: unreg, client, oper, link, probe
 	Cmd  string `json:",omitempty"`
+	// RT asks the engine to serialize and reload the state after this entry
+	// (a scenario that is about what a restored node does)
+	RT bool `json:",omitempty"`
 }
 
 func (e *Entry) Message() *robust.Message {
@@ -73,6 +76,14 @@ type Params struct {
 	// Unvalidated services introductions (arbitrary nick text) are only driven
 	// when this is set (C06); C14 excludes them (DESIGN section 6).
 	WildServiceNicks bool
+	// Base replaces T0 as the time of the first entry (0 = T0): the same seed
+	// gives the same history shifted in time
+	Base int64 `json:",omitempty"`
+	// ClockSteps lets the clock of consecutive entries step back by up to 1.9s
+	// now and then (a new leader whose clock lags within what the time safeguard admits)
+	ClockSteps bool `json:",omitempty"`
+	// Extra enables the scenarios added after the first two seeding rounds
+	Extra bool `json:",omitempty"`
 }
 
 type gsess struct {
@@ -112,6 +123,9 @@ var textPool = []string{"hi", "hello world", ":colon first", "", " ", "a b c", "
 
 func New(seed int64, p Params) *Gen {
 	g := &Gen{R: rand.New(rand.NewSource(seed)), P: p, now: T0, lastAuth: map[uint64]string{}}
+	if p.Base != 0 {
+		g.now = p.Base
+	}
 	return g
 }
 
@@ -133,6 +147,8 @@ func (g *Gen) tick() int64 {
 		d = 601 * 1e9
 	case r < 995:
 		d = 3601 * 1e9
+	case r < 998 && g.P.ClockSteps:
+		d = -int64(g.R.Intn(1900)+1) * 1e6
 	default:
 		d = 1
 	}
@@ -847,8 +863,17 @@ func (g *Gen) scenario() {
 		b = rs[g.R.Intn(len(rs))]
 	}
 	ch := g.pick([]string{"#s1", "#s2", "#S1", "#s3"})
+	nsc := 11
+	if g.P.Extra {
+		nsc = 17
+	}
+	sc := g.R.Intn(nsc)
+	if sc >= 11 {
+		g.extraScenario(sc, a, b, rs)
+		return
+	}
 	g.line(a, "JOIN "+ch)
-	switch g.R.Intn(11) {
+	switch sc {
 	case 0: // key
 		g.line(a, "MODE "+ch+" +k sekrit")
 		g.line(b, "JOIN "+ch+" "+g.pick([]string{"sekrit", "wrong", "", "SEKRIT", "sekrit,x"}))
@@ -861,6 +886,11 @@ func (g *Gen) scenario() {
 		mask := g.pick([]string{"*!*@*", b.nick + "!*@*", fmt.Sprintf("*!*@robust/0x%x", b.id), "*!*@" + b.addr, strings.ToUpper(b.nick) + "!*@*", "nomatch!*@*"})
 		g.line(a, "MODE "+ch+" +b "+mask)
 		g.line(b, "JOIN "+ch)
+		if g.P.Extra && strings.Contains(mask, "robust/0x") {
+			// a ban on a session follows the address the session came from: a new
+			// session from there is banned as well
+			g.sameAddressNewcomer(b, ch)
+		}
 		if g.R.Intn(2) == 0 {
 			g.line(a, "INVITE "+b.nick+" "+ch)
 			g.line(b, "JOIN "+ch)
@@ -953,6 +983,116 @@ func (g *Gen) scenario() {
 	}
 }
 
+// sameAddressNewcomer creates and registers a session that connects from the
+// address of b and lets it join ch.
+func (g *Gen) sameAddressNewcomer(b *gsess, ch string) *gsess {
+	c := g.newSession()
+	c.addr = b.addr
+	g.fresh++
+	c.nick = fmt.Sprintf("newc%d", g.fresh)
+	g.line(c, "NICK "+c.nick)
+	g.line(c, "USER u 0 * :from the same address")
+	c.user, c.reg = true, true
+	g.line(c, "JOIN "+ch)
+	return c
+}
+
+func (g *Gen) extraScenario(sc int, a, b *gsess, rs []*gsess) {
+	switch sc {
+	case 11: // session ban, state reloaded, then a newcomer from the banned address
+		ch := g.pick([]string{"#s4", "#S4"})
+		g.line(a, "JOIN "+ch)
+		g.line(a, fmt.Sprintf("MODE %s +b *!*@robust/0x%x", ch, b.id))
+		if g.R.Intn(2) == 0 {
+			g.out[len(g.out)-1].RT = true
+		}
+		g.sameAddressNewcomer(b, ch)
+		g.line(a, "MODE "+ch+" +b")
+		if g.R.Intn(2) == 0 {
+			g.line(a, fmt.Sprintf("MODE %s -b *!*@robust/0x%x", ch, b.id))
+			g.sameAddressNewcomer(b, ch)
+		}
+	case 12: // a user in many channels with long names is looked up (replies reach the line limit)
+		n := 14 + g.R.Intn(10)
+		for k := 0; k < n; k++ {
+			g.line(a, fmt.Sprintf("JOIN #%s%02d", strings.Repeat(string(rune('k'+k%8)), 26+g.R.Intn(8)), k))
+		}
+		g.line(b, "WHOIS "+a.nick)
+		g.line(b, "WHOIS "+a.nick+" "+a.nick)
+		g.line(a, "WHOIS "+a.nick)
+		if g.R.Intn(2) == 0 {
+			g.line(a, "JOIN 0")
+		}
+	case 13: // mode characters outside ASCII (their low byte is a control or structural byte)
+		odd := []string{"č", "Ċ", "Ā", "Ġ", "ĺ", "ȡ", "Ⰽ", "😊", "é"}
+		ms := "+" + g.pick([]string{"i", "", "G"}) + g.pick(odd) + g.pick([]string{"", g.pick(odd) + ":NickServ!services@services PRIVMSG x"})
+		g.line(a, "MODE "+a.nick+" "+ms)
+		g.line(a, "MODE "+a.nick+" "+ms+" "+g.pick(odd))
+		ch := "#s5"
+		g.line(a, "JOIN "+ch)
+		g.line(b, "JOIN "+ch)
+		g.line(a, "MODE "+ch+" +"+g.pick(odd)+"n"+g.pick(odd))
+		g.line(a, "MODE "+ch+" +b "+g.pick(odd)+"!*@*")
+		for _, s := range rs {
+			if s.oper {
+				g.line(s, "MODE "+b.nick+" "+ms)
+				break
+			}
+		}
+	case 14: // a restored node and the services password
+		if !g.hasCfg {
+			return
+		}
+		g.line(a, "PING x")
+		g.out[len(g.out)-1].RT = true
+		c := g.newSession()
+		g.line(c, "PASS :"+g.pick([]string{"services=", "services", "services= ", "services=\x00"}))
+		g.line(c, "SERVER intruder.example 1 :not services")
+		g.line(c, assemble("", "NICK", []string{"ChanServ", "1", "1422134861", "services", "localhost.net", "services.localhost.net", "0"}, true, "forged"))
+		g.line(c, assemble("ChanServ", "KILL", []string{a.nick}, true, "forged"))
+		g.line(c, assemble("ChanServ", "MODE", []string{"#a", "+o", b.nick}, false, ""))
+	case 15: // a services link goes away and the state is reloaded before services come back
+		for _, s := range g.live() {
+			if s.link && len(s.pseudo) > 0 {
+				p := g.pick(s.pseudo)
+				g.line(s, assemble(p, "JOIN", []string{"#s6"}, false, ""))
+				g.line(a, "JOIN #s6")
+				if g.R.Intn(2) == 0 {
+					g.line(s, assemble("", "QUIT", nil, true, "link going down"))
+				} else {
+					g.emit(Entry{Type: int64(robust.DeleteSession), Session: s.id, Data: "link lost", Cmd: "DELETE"})
+				}
+				s.dead = true
+				g.out[len(g.out)-1].RT = g.R.Intn(2) == 0
+				g.line(a, "WHOIS "+p)
+				g.line(a, "NAMES #s6")
+				g.line(b, "NICK "+p)
+				g.makeLink()
+				break
+			}
+		}
+	case 16: // a session ends by its own line while a DeleteSession for it is already on its way
+		v := b
+		g.line(v, "JOIN #s7")
+		switch g.R.Intn(3) {
+		case 0:
+			g.line(v, "QUIT :bye")
+		case 1:
+			for _, s := range rs {
+				if s.oper && s != v {
+					g.line(s, "KILL "+v.nick+" :gone")
+					break
+				}
+			}
+		default:
+			g.line(v, "QUIT")
+		}
+		g.emit(Entry{Type: int64(robust.DeleteSession), Session: v.id, Data: g.pick([]string{"Ping timeout (10m0s)", "client quit"}), Cmd: "DELETE"})
+		v.dead = true
+		g.emit(Entry{Type: int64(robust.DeleteSession), Session: v.id, Data: "again", Cmd: "DELETE"})
+	}
+}
+
 // track keeps the generator's (approximate) beliefs up to date. Beliefs only
 // steer the choice of inputs; no oracle depends on them.
 func (g *Gen) track(s *gsess) {
@@ -978,3 +1118,49 @@ func (g *Gen) track(s *gsess) {
 		}
 	}
 }
+
+// ParamsFor derives the generator parameters of a case from its seed and the
+// property the run is about (a pure function).
+func ParamsFor(prop string, seed int64, tier string, commands []string) Params {
+	r := seed
+	if r < 0 {
+		r = -r
+	}
+	p := Params{
+		Len:       60 + int(r%141),
+		Commands:  commands,
+		Garbage:   0.05,
+		Services:  r%3 != 0,
+		Captcha:   r%4 == 1,
+		Limits:    r%5 == 2,
+		NoConfig:  r%17 == 3,
+		IndexGaps: r%2 == 0,
+		MoD:       r%7 == 0,
+		Deletes:   true,
+		Extra:     true,
+	}
+	switch prop {
+	case "C06":
+		p.Garbage = 0.25
+		p.WildServiceNicks = r%2 == 0
+		p.Limits = r%3 == 0
+	case "C13":
+		p.Captcha = r%2 == 1
+		p.Garbage = 0.01
+	case "C14":
+		p.Limits = r%2 == 0
+	case "C15":
+		p.Garbage = 0.3
+	case "C10":
+		p.ClockSteps = true
+		p.MoD = r%2 == 0
+	}
+	if r%3 == 1 {
+		p.ClockSteps = true
+	}
+	if tier == "thorough" && r%50 == 0 {
+		p.Len = 3000
+	}
+	return p
+}
+
